@@ -11,7 +11,7 @@ Import ListNotations.
    the task table's length, the live set, nor finish or resurrect a task. *)
 Definition same_frame (e e' : exec) : Prop :=
   current e' = current e /\ next e' = next e /\ recorded e' = recorded e
-  /\ ctx_switches e' = ctx_switches e /\ live e' = live e /\ cfg_max_steps e' = cfg_max_steps e
+  /\ ctx_switches e' = ctx_switches e /\ live e' = live e
   /\ panicking e' = panicking e /\ in_cleanup e' = in_cleanup e
   /\ length (tasks e') = length (tasks e)
   /\ (forall t tk tk', get_task e t = Some tk -> get_task e' t = Some tk' -> is_finished tk' = is_finished tk)
